@@ -140,7 +140,7 @@ def build(rng, name, opts=None):
         L += ["try:", "    from typing import TYPE_CHECKING", "except ImportError:  # very old interpreters", "    TYPE_CHECKING = False"]
         feats.append("type-checking-bound-in-try")
     L.append("")
-    if rng.random() < 0.4:
+    if chance(0.4, "module-code"):
         L += ["CONSTANT = 3  # module level code", "TABLE = {'a': 1}", ""]
         feats.append("module-code")
     loc = ""
@@ -172,7 +172,7 @@ def build(rng, name, opts=None):
         "",
         "",
     ]
-    if rng.random() < 0.7:
+    if chance(0.7, "decorated"):
         ann = rng.random() < 0.5
         L += [
             "@deco",
@@ -184,14 +184,14 @@ def build(rng, name, opts=None):
             "",
         ]
         feats += ["decorated", "nested-def"] + (["partial-annotations"] if ann else [])
-    if rng.random() < 0.7:
+    if chance(0.7, "squares"):
         L += [
             "def squares(n):",
             loc + f"    return [{S}(i) for i in range(n)]",
             "",
             "",
         ]
-    if rng.random() < 0.6:
+    if chance(0.6, "all-param-kinds"):
         ann = rng.random() < 0.4
         L += [
             f"def locate(x, y=0, *rest, flag{': int' if ann else ''} = False, **kw):",
@@ -208,7 +208,7 @@ def build(rng, name, opts=None):
             "",
         ]
         feats.append("none-default")
-    if rng.random() < 0.5:
+    if chance(0.5, "generator"):
         L += [
             "def gen_shapes(n):",
             loc + "    for i in range(n):",
